@@ -146,6 +146,12 @@ type c01WithTuning struct {
 	Extra  *c01Tuning `json:"extra"`
 }
 
+type c01PtrDefault struct {
+	Mode  *string `json:"mode"`
+	Level *int64  `json:"level"`
+	Name  string  `json:"name"`
+}
+
 type c01Nested struct {
 	Name  string       `json:"name"`
 	Inner c01Conflict  `json:"inner"`
@@ -165,6 +171,13 @@ func c01Structs() []c01Case {
 		"mode":    NewPropertySchema(str(), nil, false, nil, nil, nil, nil, nil).TreatEmptyAsDefaultValue(),
 		"timeout": NewPropertySchema(NewIntSchema(nil, nil, nil), nil, false, []string{"mode"}, nil, nil, nil, nil),
 		"count":   NewPropertySchema(NewIntSchema(nil, nil, nil), nil, false, nil, nil, nil, c01P("3"), nil),
+	})
+	// "empty means default" properties that are mapped to optional (pointer) fields: a non-nil pointer is compared
+	// with the zero value of the pointed-to type
+	ptrDefault := NewStructMappedObjectSchema[c01PtrDefault]("PtrDefault", map[string]*PropertySchema{
+		"mode":  NewPropertySchema(str(), nil, false, nil, nil, nil, nil, nil).TreatEmptyAsDefaultValue(),
+		"level": NewPropertySchema(NewIntSchema(nil, nil, nil), nil, false, nil, nil, nil, nil, nil).TreatEmptyAsDefaultValue(),
+		"name":  NewPropertySchema(str(), nil, false, nil, nil, nil, nil, nil),
 	})
 	nested := NewStructMappedObjectSchema[c01Nested]("Nested", map[string]*PropertySchema{
 		"name":  NewPropertySchema(str(), nil, true, nil, nil, nil, nil, nil),
@@ -200,8 +213,45 @@ func c01Structs() []c01Case {
 		{"struct-sub-ref", refScope, tuningRaws},
 		{"struct-conflict", conflict(), []any{map[string]any{}, map[string]any{"mode": "m"}, map[string]any{"custom": "c"}, map[string]any{"mode": "", "custom": "c"}, map[any]any{"mode": "m", "custom": "c"}, "x"}},
 		{"struct-requiredif", reqif, []any{map[string]any{}, map[string]any{"mode": "m"}, map[string]any{"mode": "m", "timeout": int64(1)}, map[string]any{"mode": ""}, map[string]any{"mode": "", "timeout": uint64(2)}, map[string]any{"count": "5"}, map[string]any{"timeout": 1}}},
+		{"struct-ptr-emptydefault", ptrDefault, []any{map[string]any{}, map[string]any{"mode": "m"}, map[string]any{"mode": ""}, map[string]any{"level": int64(0), "name": "n"}, map[any]any{"mode": "m", "level": uint64(7)}}},
 		{"struct-nested", nested, []any{map[string]any{"name": "n"}, map[string]any{"name": "n", "inner": map[string]any{"custom": "c"}}, map[any]any{"name": "n", "ptr": map[any]any{"mode": "m"}, "tags": []any{"a", "b"}}, map[string]any{"name": "n", "inner": map[string]any{"mode": ""}, "tags": []any{}}, map[string]any{}}},
 	}
+}
+
+// c01EqEmptyPtr: deep equality that identifies a nil pointer with a pointer to the zero value
+func c01EqEmptyPtr(a, b reflect.Value) bool {
+	if !a.IsValid() || !b.IsValid() {
+		return a.IsValid() == b.IsValid()
+	}
+	if a.Type() != b.Type() {
+		return false
+	}
+	switch a.Kind() {
+	case reflect.Pointer:
+		if a.IsNil() && b.IsNil() {
+			return true
+		}
+		if a.IsNil() {
+			return b.Elem().IsZero()
+		}
+		if b.IsNil() {
+			return a.Elem().IsZero()
+		}
+		return c01EqEmptyPtr(a.Elem(), b.Elem())
+	case reflect.Interface:
+		if a.IsNil() || b.IsNil() {
+			return a.IsNil() == b.IsNil()
+		}
+		return c01EqEmptyPtr(a.Elem(), b.Elem())
+	case reflect.Struct:
+		for i := 0; i < a.NumField(); i++ {
+			if !c01EqEmptyPtr(a.Field(i), b.Field(i)) {
+				return false
+			}
+		}
+		return true
+	}
+	return reflect.DeepEqual(a.Interface(), b.Interface())
 }
 
 // c01EqNilEmpty: deep equality that identifies a nil slice / map with an empty one
@@ -346,6 +396,8 @@ func TestStandinC01RoundTrip(t *testing.T) {
 						key := ""
 						if c01EqNilEmpty(reflect.ValueOf(again), reflect.ValueOf(u)) {
 							key = "nil-vs-empty:" + c.name
+						} else if c01EqEmptyPtr(reflect.ValueOf(again), reflect.ValueOf(u)) {
+							key = "emptyptr-vs-nil:" + c.name
 						}
 						reportK(key, "schema %s input #%d (%#v): %s round trip differs: %#v != %#v", c.name, ri, raw, fname, again, u)
 						continue
@@ -358,7 +410,7 @@ func TestStandinC01RoundTrip(t *testing.T) {
 			}()
 		}
 	}
-	fmt.Printf("STANDIN C01 checked=%d failures=%d bound=%d schemas (leaf kinds nested to depth %d, 6 struct-mapped shapes), %d (schema, raw input) pairs, %d accepted and round-tripped in memory and through CBOR\n",
+	fmt.Printf("STANDIN C01 checked=%d failures=%d bound=%d schemas (leaf kinds nested to depth %d, 7 struct-mapped shapes), %d (schema, raw input) pairs, %d accepted and round-tripped in memory and through CBOR\n",
 		checked, failures, len(cases), depth, checked, accepted)
 	if failures > 0 {
 		t.Fail()
